@@ -126,7 +126,9 @@ def strategy(tier: str):
         min_size=0, max_size=3, unique_by=lambda f: f[0],
     )
     return st.fixed_dictionaries({
-        'bones': st.one_of(bones, bones, st.lists(st.tuples(_bone_name(), st.just(-1)).map(list), min_size=1, max_size=1)),
+        # measured: Hypothesis favours the small alternative, so the single-bone case gets 1 of 6 slots (~30 % of draws)
+        'bones': st.one_of(bones, bones, bones, bones, bones,
+                           st.lists(st.tuples(_bone_name(), st.just(-1)).map(list), min_size=1, max_size=1)),
         # order in which the bones are put into the Mesh.bones dict (indices modulo remaining count)
         'dict_order': st.lists(st.integers(0, 1 << 16), max_size=max_bones),
         'frames': frames,
@@ -457,7 +459,7 @@ def execute(desc, ctx):
 
 
 SUBS = [
-    Sub('smd_roundtrip', execute, strategy=strategy, fixed=fixed, quick=1000, thorough=15000, floor=150, quick_shards=8,
+    Sub('smd_roundtrip', execute, strategy=strategy, fixed=fixed, quick=800, thorough=15000, floor=150, quick_shards=8,
         must_hit=('bones:1', 'bones:2-3', 'bones:4+', 'bone_chain_depth>=2', 'child_before_parent_in_dict',
                   'several_roots', 'frames:0', 'frames:1', 'frames:3', 'links:1', 'links:2', 'links:3', 'tris:0',
                   'tris:1+', 'material_backslash', 'material_dotted_dir', 'bone_name_with_space', 'ctor:blank',
